@@ -2,7 +2,7 @@
    The upper-layer parser is a parameter: [upper_ok proto bytes] says whether pdu_from_flag accepts
    the reassembled payload (it throws malformed_packet otherwise); on acceptance the parsed PDU
    re-serialises to the same bytes (checked by the correspondence run for the protocols it uses). *)
-From LT Require Import Base.Prelude Base.CInt.
+From LT Require Import Base.Prelude Base.CInt Model.TcpOpts.
 Local Open Scope Z_scope.
 
 Record ipkt := mkpkt {
@@ -106,9 +106,12 @@ Section WithUpper.
     end.
 End WithUpper.
 
-(* instance used by the correspondence run: UDP needs 8 bytes of header, unknown protocols are raw *)
+(* instance used by the correspondence run: UDP needs 8 bytes of header, TCP is accepted exactly when the TCP option
+   model (Model/TcpOpts.v, tied to TCP(buffer) by C03's correspondence) accepts the segment, unknown protocols are raw *)
 Definition upper_ok_run (proto : Z) (b : list Z) : bool :=
-  if proto =? 17 then 8 <=? zlen b else if proto =? 6 then 20 <=? zlen b else true.
+  if proto =? 17 then 8 <=? zlen b
+  else if proto =? 6 then match tcp_reserialize b with Ok _ => true | _ => false end
+  else true.
 
 (* script: pkt <id> <src> <dst> <proto> <ttl> <tos> <df> <mf> <off13> x<payload> *)
 Definition ipr_step (t : table) (op : Z) (args : list tok) : table * list tok :=
